@@ -19,6 +19,14 @@ import (
 
 const Root = "/verif"
 
+// RepoDir is the tree under test: /repo, or a patched scratch copy during mutation experiments.
+func RepoDir() string {
+	if d := os.Getenv("VERIF_REPO"); d != "" {
+		return d
+	}
+	return "/repo"
+}
+
 // Evidence mirrors /root/.vp/EVIDENCE.schema.json.
 type Evidence struct {
 	PropertyID  string         `json:"property_id"`
